@@ -277,4 +277,85 @@ theorem assign_needs_existing (s : Scope) (ns n : Name) (v : Nat) (m : Module)
   unfold Scope.assign
   simp only [hm, hn]
 
+/-! ### nested forwards and lookups through a prefix -/
+
+/-- **Nested @forward, both with a prefix (spec model)**: seen through `@forward "f" as p2* e2` of a
+file that itself has `@forward "m" as p1* e1`, a member is visible iff it is a member of `m`
+whose name passes `e1` with the first prefix and `e2` with both, renamed `p2 ++ p1 ++ name` —
+for all three member kinds. -/
+theorem forward_nested_prefix_exact (p1 p2 : Name) (e1 e2 : Expose) (m : Members) (x'' : Member) :
+    x'' ∈ forwardMembers modSpec (some p2) e2 (forwardMembers modSpec (some p1) e1 m) ↔
+      ∃ x ∈ m, e1.allows x.kind (norm p1 ++ x.name) = true ∧
+        e2.allows x.kind (norm p2 ++ (norm p1 ++ x.name)) = true ∧
+        x'' = { x with name := norm p2 ++ (norm p1 ++ x.name) } := by
+  rw [forward_show_hide_prefix_exact]
+  constructor
+  · rintro ⟨x', hx', h2, rfl⟩
+    rw [forward_show_hide_prefix_exact] at hx'
+    obtain ⟨x, hx, h1, rfl⟩ := hx'
+    exact ⟨x, hx, h1, h2, rfl⟩
+  · rintro ⟨x, hx, h1, h2, rfl⟩
+    refine ⟨{ x with name := norm p1 ++ x.name }, ?_, h2, rfl⟩
+    rw [forward_show_hide_prefix_exact]
+    exact ⟨x, hx, h1, rfl⟩
+
+/-- nested forwards without prefix (either model): both filters apply, nothing is renamed -/
+theorem forward_nested_exact (q : ModQuirks) (e1 e2 : Expose) (m : Members) (x : Member) :
+    x ∈ forwardMembers q none e2 (forwardMembers q none e1 m) ↔
+      x ∈ m ∧ e1.allows x.kind x.name = true ∧ e2.allows x.kind x.name = true := by
+  rw [forward_show_hide_exact, forward_show_hide_exact]
+  exact and_assoc
+
+/-- a prefix on the outer forward only -/
+theorem forward_nested_outer_prefix_exact (p2 : Name) (e1 e2 : Expose) (m : Members) (x'' : Member) :
+    x'' ∈ forwardMembers modSpec (some p2) e2 (forwardMembers modSpec none e1 m) ↔
+      ∃ x ∈ m, e1.allows x.kind x.name = true ∧ e2.allows x.kind (norm p2 ++ x.name) = true ∧
+        x'' = { x with name := norm p2 ++ x.name } := by
+  rw [forward_show_hide_prefix_exact]
+  constructor
+  · rintro ⟨x, hx, h2, rfl⟩
+    rw [forward_show_hide_exact] at hx
+    exact ⟨x, hx.1, hx.2, h2, rfl⟩
+  · rintro ⟨x, hx, h1, h2, rfl⟩
+    exact ⟨x, (forward_show_hide_exact modSpec e1 m x).mpr ⟨hx, h1⟩, h2, rfl⟩
+
+/-- **A prefixed forward renames**: through `@forward "m" as p*` (no filter) the member `name` of
+`m` is found as `p ++ name` — for variables, functions and mixins alike. -/
+theorem lookup_through_prefix (p : Name) (m : Members) (k : Kind) (n : Name) :
+    lookup (forwardMembers modSpec (some p) .all m) k (norm p ++ n) = lookup m k n := by
+  have hm : forwardMembers modSpec (some p) .all m = m.map fun x => { x with name := norm p ++ x.name } := by
+    simp only [forwardMembers, prefixAllows, modSpec, Bool.false_eq_true, ↓reduceIte]
+    congr 1
+    apply List.filter_eq_self.mpr
+    intro x _; cases x.kind <;> rfl
+  rw [hm]
+  clear hm
+  induction m with
+  | nil => rfl
+  | cons x xs ih =>
+    simp only [List.map_cons, lookup_cons, ih]
+    by_cases h : x.kind = k ∧ x.name = n
+    · simp [h]
+    · have : ¬(x.kind = k ∧ norm p ++ x.name = norm p ++ n) := by
+        intro hh; exact h ⟨hh.1, List.append_cancel_left hh.2⟩
+      simp [h, this]
+
+/-- … and together with `members_only_via_namespace`: `@use "f" as ns` of such a forwarder makes
+the member reachable as `ns.(p ++ name)` and only so -/
+theorem forwarded_member_via_namespace (q : ModQuirks) (s s' : Scope) (url ns p : Name) (m : Members)
+    (k : Kind) (n : Name) (hn : norm n = n)
+    (h : useModule q s url (.name ns) false ⟨forwardMembers modSpec (some p) .all m, false⟩ = .ok s') :
+    s'.resolve (some ns) k (norm p ++ n) = (match lookup m k n with
+        | some v => .ok v | none => .error .undefined) := by
+  have hnorm : norm (norm p ++ n) = norm p ++ n := by
+    have hpp : norm (norm p) = norm p := by
+      simp only [norm, List.map_map]
+      apply List.map_congr_left
+      intro c _; by_cases hc : c = '-' <;> simp [hc]
+    simp only [norm, List.map_append] at hpp hn ⊢
+    rw [hpp, hn]
+  have := (members_only_via_namespace q s s' url ns ⟨forwardMembers modSpec (some p) .all m, false⟩ k
+    (norm p ++ n) h).1
+  rw [this, hnorm, lookup_through_prefix]
+
 end C37
